@@ -43,6 +43,29 @@ pub struct WorldCfg {
     /// knob replicas (milestone_interval, shrink_to_fit) that must answer exactly like the primary
     #[serde(default)]
     pub replicas: Vec<(usize, bool)>,
+    /// which state oracles run after every step (a property's check evaluates the oracles it owns,
+    /// so that a foreign defect does not cut its runs short); missing = all
+    #[serde(default)]
+    pub oracles: Option<Oracles>,
+}
+
+#[derive(Clone, Debug, Serialize, Deserialize, PartialEq)]
+pub struct Oracles {
+    pub dangling: bool,
+    pub dump: bool,
+    pub forward: bool,
+    pub offsets: bool,
+    pub reverse: bool,
+    pub data_search: bool,
+}
+
+impl Oracles {
+    pub fn all() -> Self {
+        Oracles { dangling: true, dump: true, forward: true, offsets: true, reverse: true, data_search: true }
+    }
+    pub fn none() -> Self {
+        Oracles { dangling: false, dump: false, forward: false, offsets: false, reverse: false, data_search: false }
+    }
 }
 
 impl Default for WorldCfg {
@@ -60,6 +83,7 @@ impl Default for WorldCfg {
             conversions: false,
             probes: false,
             replicas: Vec::new(),
+            oracles: None,
         }
     }
 }
@@ -172,13 +196,18 @@ impl World {
                 return Vec::new();
             }
         }
+        // Listed finding "annotate()/annotate_from_iter() are not atomic": a failing request whose
+        // earlier stages succeeded leaves their effects behind. The sequential model says exactly
+        // what a non-atomic implementation leaves. Outside the C14 check the run continues on that
+        // state (everything is still checked against it); the C14 check reports the finding.
+        let mut sequential: Option<Model> = None;
         if expected == Outcome::Err && leaves_residue(&pre, op) {
             stats.probe("failing_request_with_residue");
-            if self.cfg.skip_residue {
-                stats.suppressed += 1;
-                return Vec::new();
-            }
+            let mut seq = pre.clone();
+            seq.apply_sequential(op);
+            sequential = Some(seq);
         }
+        let tolerate_nonatomic = sequential.is_some() && self.cfg.skip_residue;
         // probes
         if fx.cascade_depth >= 2 {
             stats.probe("cascade_depth>=2");
@@ -203,7 +232,7 @@ impl World {
         let mut violations: Vec<Violation> = Vec::new();
         let is_restart = matches!(op, Op::Restart { .. });
         let is_reindex = matches!(op, Op::Reindex);
-        let pre_dump = if matches!(expected, Outcome::Err | Outcome::NoopEither) {
+        let pre_dump = if matches!(expected, Outcome::Err | Outcome::NoopEither) && !tolerate_nonatomic {
             // make sure nothing is wrong *before* the request that must change nothing, so that
             // whatever differs afterwards is attributable to it
             let saved = self.model.clone();
@@ -336,13 +365,38 @@ impl World {
             return violations;
         }
         // ---- state oracles
+        if tolerate_nonatomic {
+            stats.suppressed += 1;
+            stats.probe("nonatomic_failure_tolerated");
+            self.model = sequential.clone().unwrap();
+        }
         let mut found = self.check_state_opt(stepno, pre_dump.is_some());
-        if matches!(expected, Outcome::Err | Outcome::NoopEither) {
+        if matches!(expected, Outcome::Err | Outcome::NoopEither) && !tolerate_nonatomic {
             // whatever differs now was caused by the request that should have changed nothing
             let owner = if removal { "C02" } else { "C14" };
+            if let (Some(seq), false) = (sequential.as_ref(), found.is_empty()) {
+                // is it exactly the residue of the stages that succeeded (the listed finding), or something else?
+                let saved = std::mem::replace(&mut self.model, seq.clone());
+                let against_seq = self.check_state_opt(stepno, true);
+                self.model = saved;
+                if against_seq.is_empty() {
+                    let first = found[0].detail.clone();
+                    found = vec![Violation::new(
+                        "C14",
+                        "nonatomic",
+                        format!("after_failed_{}:residue_of_earlier_stages", op.kind()),
+                        format!("the failed request left exactly the effects of its earlier stages behind; first difference: {}", first),
+                    )];
+                }
+            }
             for v in found.iter_mut() {
-                v.key = format!("after_failed_{}:{}", op.kind(), v.key);
-                v.owner = owner;
+                if v.class != "nonatomic" {
+                    v.key = format!("after_failed_{}:{}", op.kind(), v.key);
+                    if v.owner != owner {
+                        v.also = Some(v.owner);
+                    }
+                    v.owner = owner;
+                }
             }
             if let (Some(pre_dump), true) = (pre_dump, found.is_empty()) {
                 if let Ok(mut post) = catch(|| self.store.verif_dump()) {
@@ -378,6 +432,7 @@ impl World {
             for v in violations.iter_mut() {
                 if v.owner != owner {
                     v.key = format!("reload:{}", v.key);
+                    v.also = Some(v.owner);
                     v.owner = owner;
                 }
             }
@@ -390,14 +445,28 @@ impl World {
     }
 
     pub fn check_state_opt(&mut self, stepno: usize, force_ids: bool) -> Vec<Violation> {
+        let o = self.cfg.oracles.clone().unwrap_or_else(Oracles::all);
         let mut c = Checker::new(&self.store, &self.model);
         c.check_live_sets();
-        c.check_no_dangling(true);
+        if o.dangling {
+            c.check_no_dangling(true);
+        }
         if c.out.is_empty() {
-            c.check_dump();
-            c.check_forward();
-            c.check_text_offsets();
-            c.check_reverse();
+            if o.dump {
+                c.check_dump();
+            }
+            if o.forward {
+                c.check_forward();
+            }
+            if o.offsets {
+                c.check_text_offsets();
+            }
+            if o.reverse {
+                c.check_reverse();
+            }
+            if o.data_search && c.out.is_empty() {
+                c.check_data_search(crate::rng::label_hash("datasearch") ^ (stepno as u64));
+            }
             if force_ids || (self.cfg.ids_every > 0 && stepno % self.cfg.ids_every == 0) {
                 c.check_ids(&self.id_pool);
             }
@@ -651,6 +720,7 @@ pub fn attribute(trace: &Trace, result: RunResult) -> RunResult {
     let mut result = result;
     for v in result.violations.iter_mut() {
         v.key = format!("after_restart:{}", v.key);
+        v.also = Some(v.owner);
         v.owner = owner;
     }
     result
